@@ -1,7 +1,7 @@
 #!/bin/bash
 # Extract the Coq models to OCaml and build the driver.  Usage: build_model.sh
 set -e
-V=/verif
+V="$(cd "$(dirname "$0")/.." && pwd)"
 B=$V/build/ocaml
 mkdir -p $B
 cd $B
